@@ -63,7 +63,7 @@ def cases(ctx):
         if not inj:
             continue
         fm, exp = inj
-        yield {"kind": "fault", "model": fm, "expect": exp, "rseed": rng.randrange(10 ** 9), "cli": i % 3 == 0}
+        yield {"kind": "fault", "model": fm, "expect": exp, "rseed": rng.randrange(10 ** 9), "cli": i % 3 == 0, "ctrl": i % 6 == 0}
 
 
 def _walk_value(ctx, v, node, path, bad):
@@ -180,20 +180,25 @@ def run_fault(ctx, case):
     d = ctx.scratch()
     models.write_table(model["table"], d)
     text, ast = models.to_text(model, rng, style="wild", head_one_line=True)
+    shift = 0
+    if case.get("ctrl"):
+        # one extra first line: a comment holding characters that only str.splitlines() would treat as line breaks
+        text = "# page\x0cbreak \x0b vt \x1c fs \x1d gs \x1e rs \x85 nel \u2028 ls \u2029 ps\n" + text
+        shift = 1
     c_ast = ast["commands"][exp["cmd_index"]]
-    cmd_line = c_ast["_line"]
+    cmd_line = c_ast["_line"] + shift
     ok_lines = {cmd_line}
     spread = False
     if exp["where"] == "arg":
         a_ast = [a for a in c_ast["args"] if a["name"] == exp["param"]][0]
-        ok_lines = {a_ast["_line"]}
+        ok_lines = {a_ast["_line"] + shift}
         if a_ast["value"]["t"] == "list":
             # list arguments are reported at the line where the list starts (ListArgument.lineno): part of the argument
-            ok_lines.add(a_ast["value"]["_line"])
+            ok_lines.add(a_ast["value"]["_line"] + shift)
             spread = a_ast["value"]["_line"] != a_ast["_line"]
         if "elem" in exp and a_ast["value"]["t"] == "list":
-            el = a_ast["value"]["items"][exp["elem"]]["_line"]
-            spread = spread or el != a_ast["_line"]
+            el = a_ast["value"]["items"][exp["elem"]]["_line"] + shift
+            spread = spread or el != a_ast["_line"] + shift
             ok_lines.add(el)
     ctx.feature(("fault", exp["fault"], exp["cmd"], exp.get("variant"), spread))
     from mpilot.program import Program
@@ -229,7 +234,7 @@ def _check_cli(ctx, model, text, ok_lines, exp):
     d = ctx.scratch()   # fresh directory: the API run above may have left files behind
     models.write_table(model["table"], d)
     path = os.path.join(d, "model.mpt")
-    with open(path, "w") as f:
+    with open(path, "w", encoding="utf-8", newline="") as f:
         f.write(text)
     try:
         res = CliRunner(mix_stderr=False).invoke(main, ["eems-csv", path])
